@@ -77,7 +77,7 @@ pub fn batch_cfg(prop: &str, tier: Tier, seed: u64) -> BatchCfg {
             cfg.sample_every = cfg.runs / 5;
             cfg.level = "fault_enumeration".into();
             cfg.batch_wall_s = if quick { 400 } else { 5400 };
-            cfg.rule = format!("Two kinds of runs. (a) Sampled: {} seeded runs; each draws a corpus state (a `wac compose` scenario over a generated or shipped document with its dependency tree on a simulator-owned disk, or a shape input whose nesting/size parameter is drawn from 8..60000) and a sequence of 1-4 stored-byte faults (truncate, bitflip, zero_range, dup_range, delete, empty_file, random_bytes, dir_in_place_of_file, core_module_in_place_of_component, splice_from_other_file, swap_files, invalid_utf8) on the source and the dependency files, then runs read -> parse -> print -> discover -> fs lookup -> decode every stored package -> resolve -> encode (both dependency modes) in a simulated process with an 8 MiB stack under a supervisor that attributes aborts, stack overflows and hangs. (b) Enumeration: single faults truncate@k and bitflip@k.b at every offset of every corpus file <= 4096 bytes ({} points over shipped .wac sources, their dependency files and the component library; thorough visits all of them, quick a seeded stride of {}). Invariants: no panic / abort / overflow / hang; every span of the returned tree and of every diagnostic within the source on char boundaries; the diagnostic renders. A run is non-trivial if at least one fault fired; distinct = distinct SHA-256 digests of the run's event log.", c14::sampled_runs(tier), c14::enum_total(), c14::enum_runs(tier));
+            cfg.rule = format!("Two kinds of runs. (a) Sampled: {} seeded runs; each draws a corpus state (a `wac compose` scenario over a generated or shipped document with its dependency tree on a simulator-owned disk, or a shape input whose nesting/size parameter is drawn from 8..60000) and a sequence of 1-4 stored-byte faults (one scenario in eight runs fault-free; truncate, bitflip, zero_range, dup_range, delete, empty_file, random_bytes, dir_in_place_of_file, core_module_in_place_of_component, splice_from_other_file, swap_files, invalid_utf8, insert_multibyte) on the source and the dependency files, then runs read -> parse -> print -> discover -> fs lookup -> decode every stored package -> resolve -> encode (both dependency modes) in a simulated process with an 8 MiB stack under a supervisor that attributes aborts, stack overflows and hangs. (b) Enumeration: single faults truncate@k and bitflip@k.b at every offset of every corpus file <= 4096 bytes, and delete_token@k / dup_token@k for every lexical token of every source ({} points over shipped .wac sources, their dependency files, the component library and the hand-written grammar-coverage documents; thorough visits all of them, quick {} = a seeded stride of 30000 plus every point of the hand-written documents). Invariants: no panic / abort / overflow / hang; every span of the returned tree and of every diagnostic within the source on char boundaries; the diagnostic renders. A run is non-trivial if it reached the pipeline; distinct = distinct SHA-256 digests of the run's event log.", c14::sampled_runs(tier), c14::enum_total(), c14::enum_runs(tier));
             cfg.assumptions = vec![
                 "Only the fault-sequence half of the property is claimed (stored bytes going bad under the pipeline); the 'arbitrary Unicode text' half is input fuzzing and is not presented as simulation. The generated documents and shape inputs are workload for the faults to land on.".into(),
                 "A faulted input may be another valid program: equality with the un-faulted result is not demanded, and whether an Ok output validates is C01's subject (recorded as a side observation only).".into(),
@@ -96,7 +96,7 @@ pub fn batch_cfg(prop: &str, tier: Tier, seed: u64) -> BatchCfg {
             cfg.chunk = if quick { 1500 } else { 15_000 };
             cfg.sample_every = cfg.runs / 4;
             cfg.level = "exploration".into();
-            cfg.rule = "Two kinds of runs. (a) Enumeration: the first 90720 runs visit every single-key decision-table cell of every build exactly once (3 builds x mode x 3 name shapes x (unversioned | 4 versions x decoy) x 4 base states x 4 .wasm states x 5 .wat states x 7 override kinds = 30240 cells per build); content bytes inside a cell are drawn from the tape. (b) Sampling of multi-key requests: each run draws 1-3 package keys (1-3 name segments; no version, release, pre-release, build-metadata), the state of every candidate path (base: absent / WIT directory valid / empty / invalid; <base>.wasm: absent / component / garbage / directory; <base>.wat: absent / text / binary / invalid text / directory; a decoy where Path::set_extension would look; override: none / .wasm / .wat / .wit / garbage / dangling / directory), the unknown-package mode and the request order; run i executes in harness build i mod 3 (wac-resolver features none / wit / wit+wat). The real FileSystemPackageResolver::resolve runs on the materialised tree and is compared with an executable model of the documented lookup. A run is non-trivial always; distinct = distinct SHA-256 digests of the run's event log (build, mode, keys, overrides, every file and directory of the tree, expectation per key, outcome). Coverage is also reported as decision-table cells hit (coverage.cover.cells).".into();
+            cfg.rule = "Two kinds of runs. (a) Enumeration: the first 113400 runs visit every single-key decision-table cell of every build exactly once (3 builds x mode x 3 name shapes x (unversioned | 4 versions x decoy) x 5 base states x 4 .wasm states x 5 .wat states x 7 override kinds = 37800 cells per build); content bytes inside a cell are drawn from the tape. (b) Sampling of multi-key requests: each run draws 1-3 package keys (1-3 name segments; no version, release, pre-release, build-metadata), the state of every candidate path (base: absent / WIT directory valid / empty / invalid / valid with its own deps/; <base>.wasm: absent / component / garbage / directory; <base>.wat: absent / text / binary / invalid text / directory; a decoy where Path::set_extension would look; override: none / .wasm / .wat / .wit / garbage / dangling / directory), the unknown-package mode and the request order; run i executes in harness build i mod 3 (wac-resolver features none / wit / wit+wat). The real FileSystemPackageResolver::resolve runs on the materialised tree and is compared with an executable model of the documented lookup. A run is non-trivial always; distinct = distinct SHA-256 digests of the run's event log (build, mode, keys, overrides, every file and directory of the tree, expectation per key, outcome). Coverage is also reported as decision-table cells hit (coverage.cover.cells).".into();
             cfg.assumptions = vec![
                 "The model is written from README.md and the doc comments of fs.rs and asserts only cells the property specifies; cells the documentation leaves open (override or candidate path being a directory, .wit/.wat override without the corresponding support) are executed, must not panic, and are not judged.".into(),
                 "Expected bytes for WIT directories / .wit overrides are what wit_parser + wit_component::encode give for that path; for .wat files what the wat crate assembles.".into(),
